@@ -88,6 +88,67 @@ def check_conversions(ctx):
             ctx.disagree(f"{what} differs from the model", cj)
 
 
+
+def check_cs_histories(ctx):
+    """a CoordinateSystem whose origin / axes are re-assigned stays an orthonormal frame: after every step of a history
+    of uses and re-assignments, conversions agree with a fresh object built from the current attributes, are mutually
+    inverse and preserve distances"""
+    import arim.geometry as g
+
+    rng = ctx.rng
+
+    def axis_rot(axis, ang):
+        axis = axis / np.linalg.norm(axis)
+        K = np.array([[0, -axis[2], axis[1]], [axis[2], 0, -axis[0]], [-axis[1], axis[0], 0]])
+        return np.eye(3) + np.sin(ang) * K + (1 - np.cos(ang)) * (K @ K)
+
+    for _ in range(25 * ctx.scale):
+        B = rand_frame(rng)
+        cs_ = g.CoordinateSystem(rng.normal(size=3), B[0], B[1])
+        pts = rng.normal(size=(int(rng.integers(2, 6)), 3))
+        hist = []
+        for step in range(int(rng.integers(2, 8))):
+            op = str(rng.choice(["use", "set_origin", "turn_about_i", "turn_about_j", "turn_about_k", "set_i_then_j", "set_j_then_i"]))
+            hist.append(op)
+            i, j = np.array(cs_.i_hat, dtype=float), np.array(cs_.j_hat, dtype=float)
+            ang = float(rng.uniform(0.3, 2.5))
+            if op == "use":
+                cs_.convert_from_gcs(g.Points(pts)); cs_.basis_matrix; cs_.k_hat
+            elif op == "set_origin":
+                cs_.origin = rng.normal(size=3)
+            elif op == "turn_about_i":       # only j_hat is re-assigned
+                cs_.j_hat = axis_rot(i, ang) @ j
+            elif op == "turn_about_j":       # only i_hat is re-assigned
+                cs_.i_hat = axis_rot(j, ang) @ i
+            elif op == "turn_about_k":
+                R = axis_rot(np.cross(i, j), ang)
+                cs_.i_hat, cs_.j_hat = R @ i, R @ j
+            else:
+                Bn = rand_frame(rng)
+                if op == "set_i_then_j":
+                    cs_.i_hat = Bn[0]; cs_.j_hat = Bn[1]
+                else:
+                    cs_.j_hat = Bn[1]; cs_.i_hat = Bn[0]
+            fresh = g.CoordinateSystem(np.array(cs_.origin), np.array(cs_.i_hat), np.array(cs_.j_hat))
+            cj = {"op": "coordinate_system_history", "history": list(hist), "origin": np.asarray(cs_.origin).tolist(),
+                  "i_hat": np.asarray(cs_.i_hat).tolist(), "j_hat": np.asarray(cs_.j_hat).tolist(), "points": pts.tolist()}
+            ctx.case(("cs-hist", tuple(hist), pts.tobytes()), True)
+            ctx.count("cs_history_step:" + op)
+            P = g.Points(pts)
+            loc, loc_f = cs_.convert_from_gcs(P).coords, fresh.convert_from_gcs(P).coords
+            glo, glo_f = cs_.convert_to_gcs(P).coords, fresh.convert_to_gcs(P).coords
+            if not (np.array_equal(loc, loc_f) and np.array_equal(glo, glo_f) and np.array_equal(cs_.basis_matrix, fresh.basis_matrix)
+                    and np.array_equal(cs_.k_hat, fresh.k_hat)):
+                ctx.violate(f"CoordinateSystem after the history {hist} converts differently from a fresh object with the same origin and axes", cj, {"kind": "cs_history"})
+                break
+            back = cs_.convert_to_gcs(g.Points(loc)).coords
+            d0 = np.linalg.norm(pts[:, None] - pts[None], axis=-1)
+            d1 = np.linalg.norm(loc[:, None] - loc[None], axis=-1)
+            if not (near(back, pts, 10) and np.abs(d0 - d1).max() <= 1e-12 * (1 + d0.max())):
+                ctx.violate(f"CoordinateSystem after the history {hist}: conversions are not mutually inverse / not isometric", cj, {"kind": "cs_history"})
+                break
+
+
 def check_rotations(ctx):
     import arim.geometry as g
 
@@ -305,6 +366,7 @@ def run(ctx):
                 "grids with random extents/pixels, exact multiples and half multiples of the pixel, degenerate axes, per-axis pixels; every subset of the six box bounds; "
                 "distinct = distinct input; all cases exercise a non-default branch")
     check_conversions(ctx)
+    check_cs_histories(ctx)
     check_rotations(ctx)
     check_grids(ctx)
     check_distances(ctx)
